@@ -198,6 +198,9 @@ def run_py_wire(ck: Check, prop_file: str, want_decode: bool, n_quick=(120, 4), 
     n_corpus = len(cases)
     if extra_cases:
         cases.extend(extra_cases)
+    if ns > 0 and not getattr(ck, "replay_file", None):
+        import boundary_cases
+        cases.extend(boundary_cases.cases(ck.seed))       # deterministic edge catalogue
     cases.extend(gen_cases(ck, ns, nv, params_for))
     if guard is not None and not getattr(ck, "replay_file", None):
         # separate small stream INSIDE the classes of the known findings
